@@ -67,6 +67,10 @@ fn main() {
             let mut log = Log::to_path(&out);
             mg::gen_scenarios(seed, args.num("segments", 60) as usize, args.flag("stable"), &mut log);
         }
+        "mg-serde" => {
+            let mut log = Log::to_path(&out);
+            mg::gen_serde(seed, args.num("segments", 40) as usize, args.num("len", 50) as usize, &mut log);
+        }
         "mg-acyclic" => {
             let mut log = Log::to_path(&out);
             mg::gen_acyclic(seed, args.num("segments", 40) as usize, args.num("len", 60) as usize, &mut log);
